@@ -84,13 +84,15 @@ CLAIMED = {
             "positive definiteness, existence for every matrix / preference vector / reg_eps > 0), UPGrad the sum of the m projections; the model is executed on matrices whose largest "
             "singular value is exactly rational and compared with the real aggregators; KKT is also evaluated exactly on "
             "the implementation's own weights.", NOTE_AGG, "DESIGN.md §5 C03, §10"),
-    "C04": ("Lean 4 theorems (dualproj/upgrad_nonconflict, minnorm_certificate, mgda_nonconflict, mgda_fw_rate) + the Lean "
+    "C04": ("Lean 4 theorems (dualproj/upgrad_nonconflict, minnorm_certificate, mgda_nonconflict, mgda_fw_rate; C04b end to end: "
+            "backward with UPGrad/DualProj on any program succeeds and deposits a non-conflicting update) + the Lean "
             "predicate NonConflictUpTo evaluated exactly on the implementation's output",
             "The stated allowances are proved for UPGrad/DualProj/MGDA including the Frank-Wolfe rate 8s²/(K+2); the "
             "predicate is evaluated with exact rationals on adversarial and exhaustive {-1,0,1} matrices. CAGrad: predicate "
             "only (solver optimality is a kernel).", NOTE_AGG, "DESIGN.md §5 C04, §10.3"),
     "C08": ("Lean 4 theorems (gramian_aggregator_equivariant and instances, config_in_rowspan, column permutation / "
-            "zero-column lemmas) + metamorphic correspondence with rational orthogonal Q",
+            "zero-column lemmas; C17b imtlgP_orthogonal_invariant for any rank) + implementation vs the exact any-rank "
+            "pseudo-inverse model on rank-deficient matrices + metamorphic correspondence with rational orthogonal Q",
             "Every aggregator of the form J^T W(JJ^T) is proved equivariant under orthogonal changes of coordinates, "
             "column-wise ones under column permutations and zero columns; the real aggregators are checked on J, JQ, "
             "permuted and padded matrices.", NOTE_AGG, "DESIGN.md §5 C08, §10"),
@@ -102,7 +104,8 @@ CLAIMED = {
             "defect bound is proved in squared form (|defect|^2 <= 3 m reg_eps (s^2 S(c) + ...), S from the un-regularised "
             "minimisers, whose existence is a hypothesis supplied by the model's certified search).", NOTE_AGG, "DESIGN.md §5 C09, §10.3"),
     "C10": ("Lean 4 theorems (combine_row_perm, isQPMin_perm + uniqueness => dualproj/upgrad_row_perm, "
-            "trimmedMean/graddrop_row_perm) + exhaustive m! permutation correspondence",
+            "trimmedMean/graddrop_row_perm; C10b MGDA/Krum under a positive margin; C17b imtlgP_row_perm / configP_row_perm at any "
+            "rank, no uniqueness hypothesis) + exhaustive m! permutation correspondence",
             "Row-permutation invariance is proved for linear, QP-based, TrimmedMean and GradDrop models; MGDA, Krum, CAGrad, "
             "IMTL-G, ConFIG, Aligned-MTL are covered by the exhaustive permutation check (ties excluded).",
             NOTE_AGG, "DESIGN.md §5 C10, §10.3"),
@@ -116,7 +119,8 @@ CLAIMED = {
             "Robustness of the trimmed mean to any b corrupted rows and Krum's selection rule are proved for all inputs; "
             "the real aggregators are run on honest clusters with arbitrary corrupted rows and compared with the exact model.",
             NOTE_AGG, "DESIGN.md §5 C16"),
-    "C17": ("Lean 4 theorems (imtlg_equal_projections, config_cosines, config_length, aligned_balanced) + exact-rational "
+    "C17": ("Lean 4 theorems (imtlg_equal_projections, config_cosines, config_length, aligned_balanced; C17b: the pseudo-inverse "
+            "certificate at any rank is unique, means least squares / minimum norm / equals P d for every Penrose inverse P) + exact-rational "
             "correspondence on matrices with rational row norms / spectrum",
             "The defining equal-projection / cosine / balance equations are proved from certificate-checked kernels; the "
             "real aggregators are compared with the exact model and the defining equations are evaluated on their output.",
